@@ -86,7 +86,10 @@ Record state := {
   st_next : N;                      (* next request id handed out by the harness *)
   st_cl : N -> client;
   st_sv : server;
-  st_hz : bool;                     (* hazard: ClientRemoved ran inside Universe::UpdateDependants *)
+  st_pend : list N;                 (* channels that have closed; ClientRemoved + clean-up queued on the
+                                       SelectServer (RpcServer::ChannelClosed -> Execute), in order *)
+  st_busy : bool;                   (* a service method (and possibly Universe::UpdateDependants) is on the stack *)
+  st_hz : bool;                     (* hazard: OlaServer::ClientRemoved ran while st_busy *)
   (* ghost history, used by the theorems only *)
   st_done : list N;                 (* completed request ids, one entry per callback run *)
   st_issued : list (N * N);         (* (client, rid) *)
@@ -190,37 +193,55 @@ Definition client_removed (sv : server) (c : N) : server :=
      sv_alive := updf (sv_alive sv) c false |}.
 
 Definition set_cl (st : state) (c : N) (k : client) : state :=
-  {| st_now := st_now st; st_next := st_next st; st_cl := updf (st_cl st) c k; st_sv := st_sv st;
+  {| st_now := st_now st; st_next := st_next st; st_cl := updf (st_cl st) c k; st_sv := st_sv st; st_pend := st_pend st; st_busy := st_busy st;
      st_hz := st_hz st; st_done := st_done st; st_issued := st_issued st; st_sent := st_sent st;
      st_applied := st_applied st |}.
 Definition set_sv (st : state) (sv : server) : state :=
-  {| st_now := st_now st; st_next := st_next st; st_cl := st_cl st; st_sv := sv;
+  {| st_now := st_now st; st_next := st_next st; st_cl := st_cl st; st_sv := sv; st_pend := st_pend st; st_busy := st_busy st;
      st_hz := st_hz st; st_done := st_done st; st_issued := st_issued st; st_sent := st_sent st;
      st_applied := st_applied st |}.
 Definition set_hz (st : state) : state :=
-  {| st_now := st_now st; st_next := st_next st; st_cl := st_cl st; st_sv := st_sv st;
+  {| st_now := st_now st; st_next := st_next st; st_cl := st_cl st; st_sv := st_sv st; st_pend := st_pend st; st_busy := st_busy st;
      st_hz := true; st_done := st_done st; st_issued := st_issued st; st_sent := st_sent st;
      st_applied := st_applied st |}.
 
-(* the session of c goes away: ClientRemoved, channel no longer read *)
+Definition set_pend (st : state) (l : list N) : state :=
+  {| st_now := st_now st; st_next := st_next st; st_cl := st_cl st; st_sv := st_sv st; st_pend := l;
+     st_busy := st_busy st; st_hz := st_hz st; st_done := st_done st; st_issued := st_issued st;
+     st_sent := st_sent st; st_applied := st_applied st |}.
+Definition set_busy (st : state) (b : bool) : state :=
+  {| st_now := st_now st; st_next := st_next st; st_cl := st_cl st; st_sv := st_sv st; st_pend := st_pend st;
+     st_busy := b; st_hz := st_hz st; st_done := st_done st; st_issued := st_issued st;
+     st_sent := st_sent st; st_applied := st_applied st |}.
+
+(* CleanupChannel (run by the SelectServer): OlaServer::ClientRemoved, then the channel and its
+   descriptor are deleted.  Running it while a service method is on the stack is the hazard. *)
 Definition kill (st : state) (c : N) : state :=
   let k := st_cl st c in
-  set_cl (set_sv st (client_removed (st_sv st) c)) c
+  let st1 := if st_busy st then set_hz st else st in
+  set_cl (set_sv st1 (client_removed (st_sv st1) c)) c
          {| k_closed := k_closed k; k_out := k_out k; k_c2s := []; k_s2c := k_s2c k |}.
 
-(* RpcChannel::SendMsg towards client x.  A closed client's pipe is broken: the write fails and
-   the channel close handler (RpcServer::ChannelClosed -> ClientRemoved) runs synchronously. *)
+(* RpcServer::ChannelClosed: the descriptor is unregistered, notification and clean-up are queued *)
+Definition close_chan (st : state) (x : N) : state :=
+  if memb x (st_pend st) then st else set_pend st (st_pend st ++ [x]).
+
+(* SelectServer runs the queued callbacks *)
+Definition flush (st : state) : state :=
+  fold_left kill (st_pend st) (set_pend st []).
+
+(* RpcChannel::SendMsg towards client x.  A closed client's pipe is broken: the write fails and the
+   channel close handler (RpcServer::ChannelClosed) runs; afterwards m_descriptor is NULL and
+   further sends return false. *)
 Definition send_to (st : state) (x : N) (m : smsg) : state :=
   let k := st_cl st x in
   if negb (sv_alive (st_sv st) x) then st
-  else if k_closed k then kill st x
+  else if memb x (st_pend st) then st
+  else if k_closed k then close_chan st x
   else set_cl st x {| k_closed := false; k_out := k_out k; k_c2s := k_c2s k; k_s2c := k_s2c k ++ [m] |}.
 
-(* Universe::UpdateDependants: one Client::SendDMX per sink client (snapshot of the sink set; a
-   failing send removes that client from the set being iterated: hazard) *)
-Definition push_sink (u p : N) (d : frame) (st : state) (x : N) : state :=
-  if sv_alive (st_sv st) x && k_closed (st_cl st x) then set_hz (send_to st x (SPush u p d))
-  else send_to st x (SPush u p d).
+(* Universe::UpdateDependants: one Client::SendDMX per sink client *)
+Definition push_sink (u p : N) (d : frame) (st : state) (x : N) : state := send_to st x (SPush u p d).
 Definition update_dependants (st : state) (x : univ) : state :=
   fold_left (push_sink (u_id x) (u_aprio x) (u_buf x)) (u_sinks x) st.
 
@@ -246,7 +267,7 @@ Definition apply_dmx (st : state) (c : N) (x : univ) (d : frame) (p : option N) 
   let sv2 := {| sv_unis := set_uni (sv_unis sv) x2; sv_gc := sv_gc sv; sv_prefs := sv_prefs sv;
                 sv_cdata := cd; sv_alive := sv_alive sv |} in
   let st2 := set_sv st sv2 in
-  let st3 := {| st_now := st_now st2; st_next := st_next st2; st_cl := st_cl st2; st_sv := st_sv st2;
+  let st3 := {| st_now := st_now st2; st_next := st_next st2; st_cl := st_cl st2; st_sv := st_sv st2; st_pend := st_pend st2; st_busy := st_busy st2;
                 st_hz := st_hz st2; st_done := st_done st2; st_issued := st_issued st2;
                 st_sent := st_sent st2; st_applied := st_applied st2 ++ [(c, (u_id x, d, p))] |} in
   if changed then update_dependants st3 x2 else st3.
@@ -328,9 +349,10 @@ Definition srv_step (st : state) (c : N) : state * N :=
   match k_c2s k with
   | r :: rest =>
     let st1 := set_cl st c {| k_closed := k_closed k; k_out := k_out k; k_c2s := rest; k_s2c := k_s2c k |} in
-    let '(st2, rep) := handle_req st1 c r in
-    (match rep with None => st2 | Some m => send_to st2 c m end, 1)
-  | [] => if k_closed k then (kill st c, 2) else (st, 3)
+    let '(st2, rep) := handle_req (set_busy st1 true) c r in
+    let st3 := match rep with None => st2 | Some m => send_to st2 c m end in
+    (flush (set_busy st3 false), 1)
+  | [] => if k_closed k then (flush (close_chan st c), 2) else (st, 3)
   end.
 
 (* ---------------------------------------------------------------- client side *)
@@ -342,7 +364,7 @@ Fixpoint out_take (rid : N) (l : list (N * kind)) : option (kind * list (N * kin
   end.
 
 Definition add_done (st : state) (rid : N) : state :=
-  {| st_now := st_now st; st_next := st_next st; st_cl := st_cl st; st_sv := st_sv st;
+  {| st_now := st_now st; st_next := st_next st; st_cl := st_cl st; st_sv := st_sv st; st_pend := st_pend st; st_busy := st_busy st;
      st_hz := st_hz st; st_done := st_done st ++ [rid]; st_issued := st_issued st; st_sent := st_sent st;
      st_applied := st_applied st |}.
 
@@ -408,7 +430,7 @@ Definition cli_step (st : state) (c : N) : state * N * list event :=
 Definition issue (st : state) (c : N) (kd : kind) (mk : N -> req) (nc : event) : state * list event :=
   let k := st_cl st c in
   let rid := st_next st in
-  let st1 := {| st_now := st_now st; st_next := rid + 1; st_cl := st_cl st; st_sv := st_sv st;
+  let st1 := {| st_now := st_now st; st_next := rid + 1; st_cl := st_cl st; st_sv := st_sv st; st_pend := st_pend st; st_busy := st_busy st;
                 st_hz := st_hz st; st_done := st_done st; st_issued := st_issued st ++ [(c, rid)];
                 st_sent := st_sent st; st_applied := st_applied st |} in
   if k_closed k then (add_done st1 rid, [nc])     (* m_connected == false: completes at once *)
@@ -416,7 +438,7 @@ Definition issue (st : state) (c : N) (kd : kind) (mk : N -> req) (nc : event) :
                         k_s2c := k_s2c k |}, []).
 
 Definition log_sent (st : state) (c : N) (r : sendrec) : state :=
-  {| st_now := st_now st; st_next := st_next st; st_cl := st_cl st; st_sv := st_sv st;
+  {| st_now := st_now st; st_next := st_next st; st_cl := st_cl st; st_sv := st_sv st; st_pend := st_pend st; st_busy := st_busy st;
      st_hz := st_hz st; st_done := st_done st; st_issued := st_issued st;
      st_sent := st_sent st ++ [(c, r)]; st_applied := st_applied st |}.
 
@@ -486,7 +508,7 @@ Definition step (st : state) (o : op) : state * N * list event :=
     let k := st_cl st c in
     (set_cl st c {| k_closed := true; k_out := k_out k; k_c2s := k_c2s k; k_s2c := k_s2c k |}, 4, [])
   | OTick dt =>
-    ({| st_now := st_now st + dt; st_next := st_next st; st_cl := st_cl st; st_sv := st_sv st;
+    ({| st_now := st_now st + dt; st_next := st_next st; st_cl := st_cl st; st_sv := st_sv st; st_pend := st_pend st; st_busy := st_busy st;
         st_hz := st_hz st; st_done := st_done st; st_issued := st_issued st; st_sent := st_sent st;
         st_applied := st_applied st |}, 4, [])
   | OHK => (set_sv st (housekeeping (st_sv st)), 4, [])
@@ -501,7 +523,7 @@ Definition init_client : client := {| k_closed := false; k_out := []; k_c2s := [
 Definition init_state (ncl : N) : state :=
   {| st_now := START_US; st_next := 0; st_cl := fun _ => init_client;
      st_sv := {| sv_unis := []; sv_gc := []; sv_prefs := []; sv_cdata := []; sv_alive := fun c => c <? ncl |};
-     st_hz := false; st_done := []; st_issued := []; st_sent := []; st_applied := [] |}.
+     st_pend := []; st_busy := false; st_hz := false; st_done := []; st_issued := []; st_sent := []; st_applied := [] |}.
 
 (* used by the driver's drain loop (mirrors the harness) *)
 Definition srv_can (st : state) (c : N) : bool :=
